@@ -18,6 +18,14 @@ func vfRingCaps() []int {
 	return []int{8, 9, 16}
 }
 
+// the iterator harnesses fork once per visited element; quick keeps them to 8 and 9
+func vfRingCapsIter() []int {
+	if vfTier() > 0 {
+		return vfRingCaps()
+	}
+	return []int{8, 9}
+}
+
 // vfRingLenSpec: specification of the length, written independently of Len().
 func vfRingLenSpec(head, tail, c int) int {
 	return vfIteInt(head <= tail, tail-head, c-head+tail)
@@ -177,7 +185,7 @@ func vfH_C20_clear() {
 }
 
 func vfH_C20_foreach() {
-	c := vfRingCaps()[vfPick("capidx", 0, len(vfRingCaps())-1)]
+	c := vfRingCapsIter()[vfPick("capidx", 0, len(vfRingCapsIter())-1)]
 	r := vfArbitraryRing(c)
 	n, pre := vfRingSnapshot(r)
 	stop := vfIntRange("stop", 1, c+1) // callback returns false at its stop-th call
@@ -200,7 +208,7 @@ func vfH_C20_foreach() {
 }
 
 func vfH_C20_foreach_reverse() {
-	c := vfRingCaps()[vfPick("capidx", 0, len(vfRingCaps())-1)]
+	c := vfRingCapsIter()[vfPick("capidx", 0, len(vfRingCapsIter())-1)]
 	r := vfArbitraryRing(c)
 	n, pre := vfRingSnapshot(r)
 	stop := vfIntRange("stop", 1, c+1)
